@@ -5,6 +5,7 @@ include!("hmacro.rs");
 mod verif_response {
     use super::*;
     use crate::verif::{Fault, Script, Seg};
+    use http::Method;
 
     pub struct Field {
         pub name: HeaderName,
@@ -197,4 +198,67 @@ mod verif_response {
         status_table(&[(b"HTTP/1.1 200 OK", 200)], Seg::Whole, 64);
         assert!(false, "twin: must be reported as FAILURE");
     });
+
+    // ------------------------------------------------------------------------------ C03 (bodiless)
+    /// HEAD requests and 1xx / 204 / 304 responses have no body whatever follows the head: the body
+    /// must read as empty, without error, and without touching the stray bytes.
+    fn bodiless(method: Method, head: &[u8], stray: usize, expect_empty: bool) {
+        let mut wire = [0u8; crate::verif::WIRE_CAP];
+        let mut n = 0;
+        while n < head.len() {
+            wire[n] = head[n];
+            n += 1;
+        }
+        let mut st = [0u8; 4];
+        let mut i = 0;
+        while i < stray {
+            st[i] = kani::any();
+            wire[n] = st[i];
+            n += 1;
+            i += 1;
+        }
+        let mut script = Script::new(wire, n, Seg::Whole, Fault::Eof);
+        let url = crate::verif::make_url(&crate::verif::UrlSpec::simple(false, b"h"));
+        let url2 = crate::verif::make_url(&crate::verif::UrlSpec::simple(false, b"h"));
+        let settings = crate::request::verif_request::settings(crate::request::proxy::verif_proxy_settings(None, None, Vec::new()));
+        let req = crate::request::verif_request::verif_prepared(method, url2, settings);
+        let r = parse_response(BaseStream::Verif(script.handle()), &req, &url);
+        match r {
+            Err(e) => {
+                std::mem::forget(e);
+                assert!(false, "C03: valid response refused");
+            }
+            Ok(mut resp) => {
+                let mut buf = [0u8; 8];
+                let x = resp.read(&mut buf);
+                match x {
+                    Ok(k) => {
+                        if expect_empty {
+                            assert!(k == 0, "C03: a response that cannot have a body (HEAD / 1xx / 204 / 304) delivered body bytes");
+                        } else {
+                            assert!(k == stray, "C01: close-delimited body lost bytes");
+                        }
+                    }
+                    Err(e) => {
+                        std::mem::forget(e);
+                        assert!(false, "C03: reading the body of a bodiless response failed");
+                    }
+                }
+                kani::cover!(true, "must: body read");
+                std::mem::forget(resp);
+            }
+        }
+        std::mem::forget(req);
+        std::mem::forget(url);
+    }
+
+    verif_harness!(c03_q_bodiless_head_200, 40, { bodiless(Method::HEAD, b"HTTP/1.1 200 OK\r\n\r\n", 3, true) });
+    verif_harness!(c03_q_bodiless_get_204, 40, { bodiless(Method::GET, b"HTTP/1.1 204 No Content\r\n\r\n", 2, true) });
+    verif_harness!(c03_q_bodiless_get_304, 40, { bodiless(Method::GET, b"HTTP/1.1 304 NM\r\n\r\n", 1, true) });
+    verif_harness!(c03_q_bodiless_post_101, 40, { bodiless(Method::POST, b"HTTP/1.1 101 S\r\n\r\n", 3, true) });
+    verif_harness!(c03_q_close_get_200, 40, { bodiless(Method::GET, b"HTTP/1.1 200 OK\r\n\r\n", 3, false) });
+    verif_harness!(c03_t_bodiless_get_100, 40, { bodiless(Method::GET, b"HTTP/1.1 100 C\r\n\r\n", 2, true) });
+    verif_harness!(c03_t_bodiless_get_199, 40, { bodiless(Method::GET, b"HTTP/1.1 199 x\r\n\r\n", 2, true) });
+    verif_harness!(c03_t_close_get_205, 40, { bodiless(Method::GET, b"HTTP/1.1 205 RC\r\n\r\n", 2, false) });
+    verif_harness!(c03_t_close_post_404, 40, { bodiless(Method::POST, b"HTTP/1.1 404 NF\r\n\r\n", 3, false) });
 }
